@@ -1417,49 +1417,6 @@ end
 theorem build_outSync (n : Node) : OutSync n (build n) := outSync_of_nd n _ (build_out_nd n)
 
 
-/-! ## histories -/
-
-/-- the states a macro instance goes through: construction, assignments to its own inputs
-(`macro.inputs.x = v`, keyword arguments of the constructor or of a call), successful runs -/
-inductive Reach (n : Node) : St → Prop
-  | build : Reach n (build n)
-  | setIn {σ : St} (k : Nat) (v : Val) : Reach n σ → Reach n (setIn n σ k v)
-  | run {σ σ' : St} : Reach n σ → run n σ = some σ' → Reach n σ'
-
-theorem anyNd_false_iff (f : Nat → Val) (n : Nat) : anyNd f n = false ↔ ∀ k, k < n → f k ≠ .nd := by
-  constructor
-  · intro h k hk
-    simp only [anyNd, List.any_eq_false, List.mem_range] at h
-    exact ne_nd_of_isNd_false (by simpa using h k hk)
-  · exact anyNd_false f n
-
-theorem run_some_inputs (n : Node) (σ σ' : St) (h : run n σ = some σ') : ∀ i, i < n.arity → σ.get .inp i ≠ .nd := by
-  cases n with
-  | leaf f srcs =>
-    simp only [run] at h
-    split at h
-    · cases h
-    · rename_i hnd
-      exact (anyNd_false_iff _ _).mp (by simpa [Node.arity] using hnd)
-  | mac args body rets oh s =>
-    simp only [run] at h
-    split at h
-    · cases h
-    · rename_i hnd
-      exact (anyNd_false_iff _ _).mp (by simpa [Node.arity] using hnd)
-
-theorem reach_inv (n : Node) (hwf : WF n) (hnd : NoDupH n) (σ : St) (h : Reach n σ) :
-    Inv true n σ ∧ OutSync n σ := by
-  induction h with
-  | build => exact ⟨build_inv n hwf, build_outSync n⟩
-  | setIn k v _ ih => exact ⟨setIn_inv true n _ k v ih.1, setIn_outSync n _ k v ih.2⟩
-  | @run σ0 σ1 _ hrun ih =>
-    obtain ⟨σ2, h2, _, hi, ho, _⟩ := run_value n σ0 (σ0.get .inp) hwf hnd ih.1 (fun _ _ => rfl)
-      (run_some_inputs n σ0 σ1 hrun)
-    rw [hrun] at h2
-    cases h2
-    exact ⟨hi, ho⟩
-
 /-- what `Inv` says about the macro's own inputs, in terms of the link made by the purge rule -/
 theorem inv_link {h : Bool} {args body rets oh s} {σ : St} (hinv : Inv h (.mac args body rets oh s) σ)
     (k : Nat) (hk : k < args.length) :
@@ -1811,5 +1768,333 @@ theorem wfBodyb_sound (na : Nat) (nouts : Nat → Nat) : ∀ (ns : List Node) (j
     have := srcsWFb_sound n.srcs 0 h4 i s hs
     rwa [Nat.zero_add] at this
 end
+
+
+/-! ## child-level updates on the sending side: a child's output assigned directly -/
+
+/-- input panels agree everywhere -/
+def SameIn (σ τ : St) : Prop := ∀ q p k, (p = .inp ∨ p = .uiIn) → σ.fn q p k = τ.fn q p k
+
+theorem SameIn.sub {σ τ : St} (h : SameIn σ τ) (j : Nat) : SameIn (σ.sub j) (τ.sub j) :=
+  fun q p k hp => h (j :: q) p k hp
+
+theorem sameIn_set_out (σ : St) (r : Nat) (v : Val) : SameIn (σ.set .out r v) σ := by
+  intro q p k h; rcases h with h | h <;> simp [St.set, h]
+
+theorem sameIn_graft (σ τ : St) (j : Nat) (h : SameIn τ (σ.sub j)) : SameIn (σ.graft j τ) σ := by
+  intro q p k hp
+  cases q with
+  | nil => simp [St.graft]
+  | cons a r =>
+    by_cases ha : a = j
+    · subst ha; simpa [St.graft, St.sub] using h r p k hp
+    · simp [St.graft, ha]
+
+mutual
+theorem inv_sameIn (h : Bool) : ∀ (n : Node) (σ τ : St), SameIn σ τ → Inv h n τ → Inv h n σ
+  | .leaf _ _, _, _, _, _ => by simp [Inv]
+  | .mac args body rets _ _, σ, τ, hs, hi => by
+    simp only [Inv] at hi ⊢
+    have hinp : σ.get .inp = τ.get .inp := by funext k; exact hs [] .inp k (Or.inl rfl)
+    refine ⟨?_, ?_⟩
+    · intro k hk hkept
+      rw [hinp, ← hi.1 k hk hkept]
+      exact hs [] .uiIn k (Or.inr rfl)
+    · rw [hinp]
+      exact invBody_sameIn h _ _ body 0 σ τ hs hi.2
+theorem invBody_sameIn (h : Bool) (kp : Nat → Bool) (inp : Nat → Val) : ∀ (ns : List Node) (j : Nat) (σ τ : St),
+    SameIn σ τ → InvBody h kp inp ns j τ → InvBody h kp inp ns j σ
+  | [], _, _, _, _, _ => by simp [InvBody]
+  | n :: ns, j, σ, τ, hs, hi => by
+    simp only [InvBody] at hi ⊢
+    refine ⟨inv_sameIn h n _ _ (hs.sub j) hi.1, ?_, invBody_sameIn h kp inp ns (j + 1) σ τ hs hi.2.2⟩
+    intro i s' hs'
+    have := hi.2.1 i s' hs'
+    have e : (σ.sub j).get .inp i = (τ.sub j).get .inp i := hs [j] .inp i (Or.inl rfl)
+    cases s' with
+    | arg k => simp only [SrcOk] at this ⊢; rw [e]; exact this
+    | out a b => trivial
+    | const v => simp only [SrcOk] at this ⊢; rw [e]; exact this
+    | none => simp only [SrcOk] at this ⊢; rw [e]; exact this
+end
+
+theorem outSyncBody_pointwise (ns : List Node) (b : Nat) (σ : St) :
+    OutSyncBody ns b σ ↔ ∀ (t : Nat) (n : Node), ns[t]? = some n → OutSync n (σ.sub (b + t)) := by
+  induction ns generalizing b with
+  | nil => simp [OutSyncBody]
+  | cons m ns ih =>
+    simp only [OutSyncBody, ih]
+    constructor
+    · rintro ⟨h1, h2⟩ t n hn
+      cases t with
+      | zero => simp at hn; subst hn; simpa using h1
+      | succ t =>
+        have := h2 t n (by simpa using hn)
+        have e : b + 1 + t = b + (t + 1) := by omega
+        rw [e] at this; exact this
+    · intro h
+      refine ⟨by simpa using h 0 m (by simp), ?_⟩
+      intro t n hn
+      have := h (t + 1) n (by simpa using hn)
+      have e : b + 1 + t = b + (t + 1) := by omega
+      rw [e]; exact this
+
+theorem recvOf_some (x : Ret) (rets : List Ret) (r0 r : Nat) (h : recvOf x rets r0 = some r) :
+    r0 ≤ r ∧ rets[r - r0]? = some x ∧ x ∉ rets.drop (r - r0 + 1) := by
+  induction rets generalizing r0 with
+  | nil => simp [recvOf] at h
+  | cons y ys ih =>
+    simp only [recvOf] at h
+    cases hrec : recvOf x ys (r0 + 1) with
+    | some r' =>
+      rw [hrec] at h
+      simp only [Option.some.injEq] at h; subst h
+      obtain ⟨a, b, c⟩ := ih (r0 + 1) hrec
+      have e : r' - r0 = (r' - (r0 + 1)) + 1 := by omega
+      refine ⟨by omega, ?_, ?_⟩
+      · rw [e]; simpa using b
+      · rw [e]; simpa using c
+    | none =>
+      rw [hrec] at h
+      simp only at h
+      split at h
+      · rename_i hy
+        simp only [Option.some.injEq] at h; subst h
+        subst hy
+        refine ⟨Nat.le_refl _, by simp, ?_⟩
+        simp only [Nat.sub_self, Nat.zero_add, List.drop_succ_cons, List.drop_zero]
+        -- no occurrence later, otherwise the recursive call would have found one
+        have key : ∀ (zs : List Ret) (b : Nat), recvOf y zs b = none → y ∉ zs := by
+          intro zs
+          induction zs with
+          | nil => intro _ _; simp
+          | cons z zs ihz =>
+            intro b hb
+            simp only [recvOf] at hb
+            cases hr2 : recvOf y zs (b + 1) with
+            | some _ => rw [hr2] at hb; cases hb
+            | none =>
+              rw [hr2] at hb
+              simp only at hb
+              split at hb
+              · cases hb
+              · rename_i hne
+                simp only [List.mem_cons, not_or]
+                exact ⟨fun e => hne e.symm, ihz (b + 1) hr2⟩
+        exact key ys (r0 + 1) hrec
+      · cases h
+
+theorem recvOf_none (x : Ret) (rets : List Ret) (r0 : Nat) (h : recvOf x rets r0 = none) : x ∉ rets := by
+  induction rets generalizing r0 with
+  | nil => simp
+  | cons y ys ih =>
+    simp only [recvOf] at h
+    cases hrec : recvOf x ys (r0 + 1) with
+    | some _ => rw [hrec] at h; cases h
+    | none =>
+      rw [hrec] at h
+      simp only at h
+      split at h
+      · cases h
+      · rename_i hne
+        simp only [List.mem_cons, not_or]
+        exact ⟨fun e => hne e.symm, ih (r0 + 1) hrec⟩
+
+theorem last_occ_unique {α} (l : List α) (x : α) (r r' : Nat) (h1 : l[r]? = some x) (h2 : x ∉ l.drop (r + 1))
+    (h1' : l[r']? = some x) (h2' : x ∉ l.drop (r' + 1)) : r = r' := by
+  rcases Nat.lt_trichotomy r r' with h | h | h
+  · exfalso; apply h2
+    have : l[r']? = (l.drop (r + 1))[r' - (r + 1)]? := by
+      rw [List.getElem?_drop]; congr 1; omega
+    rw [this] at h1'
+    exact List.mem_of_getElem? h1'
+  · exact h
+  · exfalso; apply h2'
+    have : l[r]? = (l.drop (r' + 1))[r - (r' + 1)]? := by
+      rw [List.getElem?_drop]; congr 1; omega
+    rw [this] at h1
+    exact List.mem_of_getElem? h1
+
+theorem pushUp_cases (rets : List Ret) (j : Nat) (v : Val) (σ1 : St) (ch : Option Nat) :
+    (pushUp rets j v σ1 ch = (σ1, none) ∧ ∀ o', ch = some o' → Ret.out j o' ∉ rets) ∨
+    (∃ o' r0, ch = some o' ∧ pushUp rets j v σ1 ch = (σ1.set .out r0 v, some r0) ∧
+      rets[r0]? = some (.out j o') ∧ Ret.out j o' ∉ rets.drop (r0 + 1)) := by
+  cases ch with
+  | none => left; exact ⟨rfl, fun _ h => by cases h⟩
+  | some o' =>
+    cases hrv : recvOf (.out j o') rets 0 with
+    | none =>
+      left
+      refine ⟨by simp [pushUp, hrv], ?_⟩
+      intro o'' h; cases h
+      exact recvOf_none _ _ _ hrv
+    | some r0 =>
+      right
+      obtain ⟨_, hr0, hlast⟩ := recvOf_some _ _ _ _ hrv
+      simp only [Nat.sub_zero] at hr0 hlast
+      exact ⟨o', r0, rfl, by simp [pushUp, hrv], hr0, hlast⟩
+
+/-- assigning the output of a LEAF child at path `p` (the sending end of output links): stored, pushed
+up through every macro that returns it; all links stay in place -/
+theorem setOutAt_leaf (o : Nat) (v : Val) : ∀ (p : Path) (n : Node) (σ : St),
+    (∃ f s, nodeAt n p = some (.leaf f s)) → OutSync n σ →
+    OutSync n (setOutAt n σ p o v).1 ∧ SameIn (setOutAt n σ p o v).1 σ ∧
+    (∀ o', (setOutAt n σ p o v).1.get .out o' =
+      if (setOutAt n σ p o v).2 = some o' then v else σ.get .out o') ∧
+    (∀ k, (setOutAt n σ p o v).1.get .uiOut k = σ.get .uiOut k) := by
+  intro p
+  induction p with
+  | nil =>
+    intro n σ hleaf _
+    obtain ⟨f, s, hn⟩ := hleaf
+    simp only [nodeAt, Option.some.injEq] at hn
+    subst hn
+    simp only [setOutAt]
+    refine ⟨by simp [OutSync], sameIn_set_out σ o v, ?_, by intro k; simp⟩
+    intro o'
+    by_cases he : o' = o
+    · subst he; simp
+    · have : ¬ (o = o') := fun e => he e.symm
+      simp [he, this]
+  | cons j q ih =>
+    intro n σ hleaf hos
+    obtain ⟨f, s, hn⟩ := hleaf
+    cases n with
+    | leaf f' s' => simp [nodeAt] at hn
+    | mac args body rets oh srcs =>
+      simp only [nodeAt] at hn
+      cases hb : body[j]? with
+      | none => simp [hb] at hn
+      | some m =>
+        simp only [hb] at hn
+        simp only [OutSync] at hos
+        have hosm : OutSync m (σ.sub j) := by
+          have := (outSyncBody_pointwise body 0 σ).mp hos.2 j m hb
+          simpa using this
+        obtain ⟨i1, i2, i3, i4⟩ := ih m (σ.sub j) ⟨f, s, hn⟩ hosm
+        simp only [setOutAt, hb]
+        generalize (setOutAt m (σ.sub j) q o v).1 = τ at i1 i2 i3 i4 ⊢
+        generalize (setOutAt m (σ.sub j) q o v).2 = ch at i3 ⊢
+        have hkids : ∀ (σ' : St), (∀ jj, σ'.sub jj = (σ.graft j τ).sub jj) → OutSyncBody body 0 σ' := by
+          intro σ' hσ'
+          rw [outSyncBody_pointwise]
+          intro t n' hn'
+          rw [Nat.zero_add, hσ']
+          by_cases ht : t = j
+          · subst ht
+            rw [hb] at hn'; cases hn'
+            rw [St.sub_graft_same]; exact i1
+          · rw [St.sub_graft_other _ _ _ _ ht]
+            have := (outSyncBody_pointwise body 0 σ).mp hos.2 t n' hn'
+            simpa using this
+        have hret : ∀ (σ' : St) (x : Ret), (∀ jj, σ'.sub jj = (σ.graft j τ).sub jj) →
+            (∀ k, σ'.get .uiOut k = σ.get .uiOut k) →
+            (∀ o', x = .out j o' → ch ≠ some o') → retVal σ' x = retVal σ x := by
+          intro σ' x h1 h2 h3
+          cases x with
+          | arg k => exact h2 k
+          | out j' o' =>
+            simp only [retVal]
+            rw [h1]
+            by_cases hj : j' = j
+            · subst hj
+              rw [St.sub_graft_same, i3 o']
+              have := h3 o' rfl
+              simp [this]
+            · rw [St.sub_graft_other _ _ _ _ hj]
+        rcases pushUp_cases rets j v (σ.graft j τ) ch with ⟨hp, hnot⟩ | ⟨o', r0, hch, hp, hr0, hlast⟩
+        · rw [hp]
+          refine ⟨?_, sameIn_graft σ τ j i2, by intro o'; simp, by intro k; simp⟩
+          simp only [OutSync]
+          refine ⟨?_, hkids _ (fun _ => rfl)⟩
+          intro r x hr hx
+          rw [St.get_graft, hos.1 r x hr hx]
+          refine (hret _ x (fun _ => rfl) (fun k => St.get_graft _ _ _ _ _) ?_).symm
+          intro o'' hxe hch
+          subst hxe
+          exact hnot o'' hch (List.mem_of_getElem? hr)
+        · rw [hp]
+          subst hch
+          refine ⟨?_, ?_, ?_, by intro k; simp⟩
+          · simp only [OutSync]
+            refine ⟨?_, hkids _ (fun jj => by simp)⟩
+            intro r x hr hx
+            by_cases hxe : x = .out j o'
+            · subst hxe
+              have : r = r0 := last_occ_unique rets _ r r0 hr hx hr0 hlast
+              subst this
+              simp only [St.get_set, and_self, if_true, retVal, St.sub_set, St.sub_graft_same]
+              rw [i3 o']; simp
+            · have hne : r ≠ r0 := by
+                intro e; subst e
+                rw [hr0] at hr; cases hr; exact hxe rfl
+              simp only [St.get_set, hne, and_false, if_false, St.get_graft]
+              rw [hos.1 r x hr hx]
+              refine (hret _ x (fun jj => by simp) (fun k => by simp) ?_).symm
+              intro o'' hxe' hch
+              simp only [Option.some.injEq] at hch
+              subst hch
+              exact hxe hxe'
+          · exact fun q p k hp => by
+              have h1 := sameIn_set_out (σ.graft j τ) r0 v q p k hp
+              have h2 := sameIn_graft σ τ j i2 q p k hp
+              exact h1.trans h2
+          · intro o''
+            by_cases he : o'' = r0
+            · subst he; simp
+            · have : ¬ (r0 = o'') := fun e => he e.symm
+              simp [he, this]
+
+
+/-! ## histories -/
+
+/-- the states a macro instance goes through: construction, assignments to its own inputs
+(`macro.inputs.x = v`, keyword arguments of the constructor or of a call), successful runs, direct
+assignments to outputs of leaf children -/
+inductive Reach (n : Node) : St → Prop
+  | build : Reach n (build n)
+  | setIn {σ : St} (k : Nat) (v : Val) : Reach n σ → Reach n (setIn n σ k v)
+  | run {σ σ' : St} : Reach n σ → run n σ = some σ' → Reach n σ'
+  /-- `leaf_child.outputs.o.value = v` anywhere below the macro (the sending end of output links) -/
+  | setOutLeaf {σ : St} (p : Path) (o : Nat) (v : Val) : Reach n σ →
+      (∃ f s, nodeAt n p = some (.leaf f s)) → Reach n (setOutAt n σ p o v).1
+
+theorem anyNd_false_iff (f : Nat → Val) (n : Nat) : anyNd f n = false ↔ ∀ k, k < n → f k ≠ .nd := by
+  constructor
+  · intro h k hk
+    simp only [anyNd, List.any_eq_false, List.mem_range] at h
+    exact ne_nd_of_isNd_false (by simpa using h k hk)
+  · exact anyNd_false f n
+
+theorem run_some_inputs (n : Node) (σ σ' : St) (h : run n σ = some σ') : ∀ i, i < n.arity → σ.get .inp i ≠ .nd := by
+  cases n with
+  | leaf f srcs =>
+    simp only [run] at h
+    split at h
+    · cases h
+    · rename_i hnd
+      exact (anyNd_false_iff _ _).mp (by simpa [Node.arity] using hnd)
+  | mac args body rets oh s =>
+    simp only [run] at h
+    split at h
+    · cases h
+    · rename_i hnd
+      exact (anyNd_false_iff _ _).mp (by simpa [Node.arity] using hnd)
+
+theorem reach_inv (n : Node) (hwf : WF n) (hnd : NoDupH n) (σ : St) (h : Reach n σ) :
+    Inv true n σ ∧ OutSync n σ := by
+  induction h with
+  | build => exact ⟨build_inv n hwf, build_outSync n⟩
+  | setIn k v _ ih => exact ⟨setIn_inv true n _ k v ih.1, setIn_outSync n _ k v ih.2⟩
+  | @run σ0 σ1 _ hrun ih =>
+    obtain ⟨σ2, h2, _, hi, ho, _⟩ := run_value n σ0 (σ0.get .inp) hwf hnd ih.1 (fun _ _ => rfl)
+      (run_some_inputs n σ0 σ1 hrun)
+    rw [hrun] at h2
+    cases h2
+    exact ⟨hi, ho⟩
+  | setOutLeaf p o v _ hleaf ih =>
+    obtain ⟨h1, h2, _, _⟩ := setOutAt_leaf o v p n _ hleaf ih.2
+    exact ⟨inv_sameIn true n _ _ h2 ih.1, h1⟩
+
 
 end PwVerif.Macro
